@@ -194,6 +194,33 @@ fn observe<E: Pairing>(who: &str, a: &N, a2: &N, b: &N) -> Result<Vec<(String, V
             return Err(format!("{who}: G2 MSM with identity bases differs from the sum of the products"));
         }
         o.push(("msm(G2, identity bases)".into(), ser(&m2.into_affine(), false)));
+        // long inputs (above ark-ec's smallest-window threshold) with the scalars 0, 1, -1 among them
+        {
+            let minus_one = -E::ScalarField::from(1u64);
+            let one = E::ScalarField::from(1u64);
+            let mut b1 = Vec::new();
+            let mut b2 = Vec::new();
+            let mut sc = Vec::new();
+            for i in 0..40u64 {
+                b1.push(match i % 4 { 0 => g1, 1 => p, 2 => p2, _ => psum });
+                b2.push(match i % 3 { 0 => g2, 1 => q, _ => qdbl });
+                sc.push(match i % 7 { 0 => minus_one, 1 => one, 2 => zs, 3 => sa, 4 => sb, 5 => sa2, _ => sa * sb + E::ScalarField::from(i) });
+            }
+            for n in [31usize, 32, 33, 40] {
+                let m1 = <E::G1 as ark_ec::VariableBaseMSM>::msm(&b1[..n], &sc[..n]).map_err(|_| format!("{who}: msm length"))?;
+                let m2 = <E::G2 as ark_ec::VariableBaseMSM>::msm(&b2[..n], &sc[..n]).map_err(|_| format!("{who}: msm length"))?;
+                let (mut w1, mut w2) = (E::G1::zero(), E::G2::zero());
+                for i in 0..n {
+                    w1 += b1[i].into_group() * sc[i];
+                    w2 += b2[i].into_group() * sc[i];
+                }
+                if m1 != w1 || m2 != w2 {
+                    return Err(format!("{who}: MSM of {n} terms (with scalars 0, 1, -1) differs from the sum of the products"));
+                }
+                o.push((format!("msm(G1, {n} terms)"), ser(&m1.into_affine(), false)));
+                o.push((format!("msm(G2, {n} terms)"), ser(&m2.into_affine(), false)));
+            }
+        }
     }
     // reduction of byte strings into the engine's fields (hash-to-field reads 64 big-endian bytes per coefficient)
     {
